@@ -169,6 +169,9 @@ def build(rng, *, block_size: int, sector_size: int, nblocks: int, tail_cut_sect
         idx = i + i // ratio
         if st in (6, 7):
             bat[idx] = st | (pos_mb[i] << 20)
+        elif st in (0, 1, 2, 3) and stale_offsets and i > 0 and states[i - 1] == 6 and rng.random() < 0.5:
+            # leftover offset of a trimmed block, exactly where it would follow its (present) predecessor in the file
+            bat[idx] = st | ((pos_mb[i - 1] + blk_mb) << 20)
         elif st in (1, 2, 3) and stale_offsets and rng.random() < 0.5:
             # leftover offset of a block that no longer counts: must be ignored by readers
             bat[idx] = st | (rng.randrange(first_data_mb, first_data_mb + 64) << 20)
